@@ -45,6 +45,14 @@ func VerifH_C09_LinearTransformationInputIntact() {
 		vAssert(eval.Evaluate(inpl, lt, inpl) == nil, tag+"-Evaluate-in-place-no-error")
 		vAssertNoiseFree(r, vPhase(c, inpl), vPhase(c, out), 42, tag+"-in-place-evaluation-gives-the-result-of-the-out-of-place-one")
 		vAssert(inpl.Scale.Cmp(out.Scale) == 0 && inpl.Level() == out.Level(), tag+"-in-place-evaluation-same-scale-and-level")
+		// a transformation with the main diagonal only, on the evaluator that just ran the one above: what its scratch
+		// buffers hold must not enter the result
+		lt0 := NewLinearTransformation(params, Parameters{DiagonalsIndexList: []int{0}, LevelQ: level, LevelP: params.MaxLevelP(),
+			Scale: params.NewScale(5), LogDimensions: params.LogMaxDimensions(), LogBabyStepGiantStepRatio: -1})
+		vAssert(Encode(c.Ecd, Diagonals[uint64](map[int][]uint64{0: vDiag(0, cols, t)}), lt0) == nil, tag+"-main-diagonal-Encode-no-error")
+		out0 := vAtomCiphertext(c, level, "junk", 9)
+		vAssert(eval.Evaluate(ct, lt0, out0) == nil, tag+"-main-diagonal-only-on-a-used-evaluator-no-error")
+		vAssertNoiseFree(r, vPhase(c, out0), vExpected(c, lt0, vPhase(c, ct), level), 42, tag+"-main-diagonal-only-on-a-used-evaluator-is-the-diagonal-times-the-input")
 	}
 	vCover("C09-lintrans-reached")
 }
